@@ -464,7 +464,17 @@ class OrderInterp:
                 if name in ("max", "min", "sum", "mean", "lcm", "gcd", "unique", "argmax", "argmin", "median", "any", "all"):
                     return SCALAR
                 if name in ("sort",):
-                    return Tag("sorted", argtags[0].base if argtags else "", "value")
+                    # np.sort(x): x's elements in ascending order — like Series.sort_values() of the same column
+                    a0 = argtags[0] if argtags else TOP
+                    return Tag("sorted", a0.base if argtags else "", a0.col or "value", a0.col) if a0.kind != "top" else TOP
+                if name in ("append", "concatenate", "hstack") and e.args:
+                    # np.append(column, extras): the column's rows plus order-free extras — like pd.concat([column, extras])
+                    parts = list(e.args[0].elts) if name != "append" and isinstance(e.args[0], (ast.List, ast.Tuple)) else list(e.args[:2])
+                    pts = [self.tag(x) for x in parts]
+                    real = [t for t in pts if t.kind in ("rows", "sorted", "grouped", "top")]
+                    if len(real) == 1 and real[0].kind in ("rows", "sorted") and len(pts) > 1:
+                        return Tag("rows", real[0].base + "+sentinel", "", real[0].col)
+                    return Tag("rows", self.fresh(name))
                 return TOP
             if name in ("bisect", "bisect_left", "bisect_right"):
                 return SCALAR
